@@ -313,3 +313,132 @@ fn c08_entries_for_config() {
     kani::cover!(r.is_err());
     core::mem::forget(r);
 }
+
+// ---------------------------------------------------------------------------------------------
+// serialization: C11 round trip, C12 layout, C13 empty-flag variant, C14 arbitrary bytes, C18 size
+// ---------------------------------------------------------------------------------------------
+
+fn rd_u16(b: &[u8], o: usize) -> u16 {
+    (b[o] as u16) | ((b[o + 1] as u16) << 8)
+}
+fn rd_u32(b: &[u8], o: usize) -> u32 {
+    (rd_u16(b, o) as u32) | ((rd_u16(b, o + 2) as u32) << 16)
+}
+fn rd_u64(b: &[u8], o: usize) -> u64 {
+    (rd_u32(b, o) as u64) | ((rd_u32(b, o + 4) as u64) << 32)
+}
+
+macro_rules! roundtrip {
+    ($name:ident, $t:ty, $wide:ty) => {
+        #[kani::proof]
+        #[kani::unwind(50)]
+        #[kani::stub(alloc::fmt::format, stub_format)]
+        fn $name() {
+            let counts: [$t; 3] = kani::any();
+            let total: $t = kani::any();
+            let mut s = CountMinSketch::<$t>::new(1, 3);
+            s.counts[0] = counts[0];
+            s.counts[1] = counts[1];
+            s.counts[2] = counts[2];
+            s.total_weight = total;
+            let bytes = s.serialize();
+            let empty = total == 0 as $t;
+            // ---- independent spec decoder (C12): Java/C++ CountMin layout
+            assert!(bytes.len() == if empty { 16 } else { 16 + 8 + 8 * 3 }, "image length");
+            assert!(bytes[0] == 2, "preamble longs");
+            assert!(bytes[1] == 1, "serial version");
+            assert!(bytes[2] == 18, "family id");
+            assert!((bytes[3] & 1 != 0) == empty && bytes[3] & !1 == 0, "flags");
+            assert!(rd_u32(&bytes, 4) == 0, "unused32");
+            assert!(rd_u32(&bytes, 8) == 3, "num_buckets");
+            assert!(bytes[12] == 1, "num_hashes");
+            assert!(rd_u16(&bytes, 13) == 0x93CC, "seed hash of the default seed");
+            assert!(bytes[15] == 0);
+            if !empty {
+                assert!(rd_u64(&bytes, 16) == (total as $wide) as u64, "total weight field (8 bytes, sign-extended for signed types)");
+                let mut i = 0;
+                while i < 3 {
+                    assert!(rd_u64(&bytes, 24 + 8 * i) == (counts[i] as $wide) as u64, "counter field");
+                    i += 1;
+                }
+            }
+            // ---- round trip (C11)
+            let r = CountMinSketch::<$t>::deserialize(&bytes);
+            assert!(r.is_ok(), "own image rejected");
+            let g = r.unwrap();
+            assert!(g.num_hashes == 1 && g.num_buckets == 3 && g.seed == s.seed && g.seed_hash == s.seed_hash);
+            assert!(g.hash_seeds.len() == 1 && g.hash_seeds[0] == s.hash_seeds[0]);
+            assert!(g.total_weight == total);
+            if !empty {
+                assert!(g.counts[0] == counts[0] && g.counts[1] == counts[1] && g.counts[2] == counts[2], "counters changed in round trip");
+            }
+            kani::cover!(empty);
+            kani::cover!(!empty);
+            core::mem::forget((s, g, bytes));
+        }
+    };
+}
+
+//@ family: roundtrip
+//@ props: C11 C12 C18
+//@ tier: thorough
+//@ timeout: 900
+//@ functions: countmin::CountMinSketch::serialize
+//@ functions: countmin::CountMinSketch::deserialize
+//@ functions: countmin::CountMinSketch::deserialize_with_seed
+//@ unwind: 50
+//@ bounds: 1 x 3 sketch, every counter and total of the counter type (including counters > 0 with total 0 is excluded by serialize's own emptiness rule: total == 0 means empty)
+//@ desc: serialize() follows the CountMin layout (preLongs 2, serVer 1, family 18, empty flag bit 0, num_buckets u32 @8, num_hashes u8 @12, seed hash u16 @13, then total and counters as 8-byte LE) as read by an independent decoder; deserialize(serialize(s)) restores every field
+roundtrip!(c11_countmin_roundtrip_u8, u8, u64); //@ tier: quick
+roundtrip!(c11_countmin_roundtrip_i8, i8, i64); //@ tier: quick
+roundtrip!(c11_countmin_roundtrip_u16, u16, u64);
+roundtrip!(c11_countmin_roundtrip_i16, i16, i64);
+roundtrip!(c11_countmin_roundtrip_u32, u32, u64);
+roundtrip!(c11_countmin_roundtrip_i32, i32, i64);
+roundtrip!(c11_countmin_roundtrip_u64, u64, u64);
+roundtrip!(c11_countmin_roundtrip_i64, i64, i64); //@ tier: quick
+//@ endfamily: x
+
+macro_rules! any_bytes {
+    ($name:ident, $t:ty) => {
+        #[kani::proof]
+        #[kani::unwind(12)]
+        #[kani::stub(alloc::fmt::format, stub_format)]
+        fn $name() {
+            let img: [u8; 48] = kani::any();
+            let len: usize = kani::any();
+            kani::assume(len <= 48);
+            // keep the table small enough for the follow-up operations (the header checks see every value)
+            let r = CountMinSketch::<$t>::deserialize(&img[..len]);
+            kani::cover!(r.is_ok());
+            kani::cover!(r.is_err());
+            if let Ok(mut g) = r {
+                assert!(g.num_hashes >= 1 && g.num_buckets >= 3);
+                assert!(g.counts.len() == g.num_hashes as usize * g.num_buckets as usize);
+                assert!(g.hash_seeds.len() == g.num_hashes as usize);
+                if g.counts.len() <= 4 {
+                    let _ = g.estimate(7u64);
+                    let _ = g.is_empty();
+                    let out = g.serialize();
+                    core::mem::forget(out);
+                }
+                core::mem::forget(g);
+            } else {
+                core::mem::forget(r);
+            }
+        }
+    };
+}
+
+//@ family: any_bytes
+//@ props: C14
+//@ tier: thorough
+//@ timeout: 1800
+//@ functions: countmin::CountMinSketch::deserialize
+//@ functions: countmin::CountMinValue::try_from_bytes
+//@ unwind: 12
+//@ bounds: every byte string of length 0..=48; follow-up estimate/serialize only on tables of <= 4 counters
+//@ desc: deserialize returns Ok or Err without panic for every byte string; an Ok value is structurally consistent and can be queried and re-serialized
+any_bytes!(c14_countmin_any_bytes_u8, u8); //@ tier: quick
+any_bytes!(c14_countmin_any_bytes_i64, i64);
+//@ endfamily: x
